@@ -377,6 +377,47 @@ TYPES = [
 ]
 
 
+def chains(t, depth=4):
+    """every designator chain (up to `depth` designators) into aggregate t"""
+    out = []
+    if depth == 0 or isinstance(t, Scalar):
+        return out
+    if isinstance(t, Array):
+        subs = [(("i", i), t.elem) for i in range(t.n if t.n is not None else 3)]
+    else:
+        subs = [(("m", n), mt) for n, mt in t.members]
+    for d, st in subs:
+        out.append([d])
+        out.extend([d] + c for c in chains(st, depth - 1))
+    return out
+
+
+def systematic(limit_per_type=None):
+    """deterministic family: for every type and every designator chain D into it, the spellings
+       { D = 1, 2, 3 } and { 1, D = 2, 3 } -- "initialization continues with the next subobject after the one
+       described by the designator" (6.7.9p17), at every position of every aggregate (incl. after unnamed bit-fields,
+       at the end of nested aggregates, inside unions)."""
+    out = []
+    for tid, t in TYPES:
+        cs = chains(t)
+        if limit_per_type and len(cs) > limit_per_type:
+            step = len(cs) / float(limit_per_type)
+            cs = [cs[int(i * step)] for i in range(limit_per_type)]
+        for c in cs:
+            for form in (0, 1):
+                items = [(c, ("expr", 11)), ([], ("expr", 12)), ([], ("expr", 13))] if form == 0 else \
+                        [([], ("expr", 21)), (c, ("expr", 22)), ([], ("expr", 23))]
+                init = ("list", items, False)
+                for cut in (3, 2):
+                    try:
+                        ref = Ref(t).run(("list", items[:cut], False))
+                    except (Invalid, IndexError, KeyError, RecursionError):
+                        continue
+                    out.append((tid, t, ("list", items[:cut], False), ref.vals, ref.ty))
+                    break
+    return out
+
+
 def generate(seed, count):
     """[(type id, type, init, reference values dict, actual type)]"""
     rnd = random.Random(seed)
